@@ -65,6 +65,13 @@ def run_verus(path, rlimit=RLIMIT, seed=None, use_cache=False):
     if key and not res.get('tool_error'):
         try:
             os.makedirs(CACHE_DIR, exist_ok=True)
+            if hash(key) % 200 == 0:   # occasional pruning: keep the newest 6000 verdicts
+                ents = sorted((os.path.getmtime(os.path.join(CACHE_DIR, x)), x) for x in os.listdir(CACHE_DIR) if x.endswith('.json'))
+                for _, x in ents[:-6000]:
+                    try:
+                        os.remove(os.path.join(CACHE_DIR, x))
+                    except OSError:
+                        pass
             tmp = key + '.tmp%d' % os.getpid()
             with open(tmp, 'w') as f:
                 json.dump(res, f)
